@@ -17,8 +17,10 @@ import traceback
 from . import loader, sx
 
 HERE = os.path.dirname(os.path.dirname(os.path.abspath(__file__)))
-EVIDENCE_DIR = os.path.join(HERE, "evidence")
-REPLAY_DIR = os.path.join(HERE, "replays")
+# VERIF_OUT: evidence and replay files of a run on a scratch tree (VERIF_REPO) go elsewhere -- they are not evidence
+OUT = os.environ.get("VERIF_OUT") or HERE
+EVIDENCE_DIR = os.path.join(OUT, "evidence")
+REPLAY_DIR = os.path.join(OUT, "replays")
 KNOWN = os.path.join(HERE, "known_findings.json")
 
 LEVEL = "model_checking"
